@@ -53,6 +53,13 @@ impl CopyBroadcastReceiver {
             }
 
             let length = receiver.length() as Index;
+            let type_id = receiver.type_id();
+
+            // length and type are only meaningful if the record was not overwritten while they were read
+            if !receiver.validate() {
+                return Err(BroadcastTransmitError::UnableToKeepUpWithBroadcastBuffer);
+            }
+
             if length > self.scratch_buffer.capacity() {
                 return Err(BroadcastTransmitError::BufferTooSmall {
                     need: length,
@@ -60,7 +67,7 @@ impl CopyBroadcastReceiver {
                 });
             }
 
-            let msg = AeronCommand::from_command_id(receiver.type_id());
+            let msg = AeronCommand::from_command_id(type_id);
 
             self.scratch_buffer.copy_from(0, receiver.buffer(), receiver.offset(), length);
 
